@@ -568,7 +568,8 @@ fn numeric_pools(rng: &Rng, thorough: bool) -> Vec<(String, Vec<String>)> {
 }
 
 fn drive_numeric(t: &mut Tracer, a: &Args, st: &mut Stats, rng: &Rng) {
-    let pools = numeric_pools(rng, a.thorough());
+    let mut pools = numeric_pools(rng, a.thorough());
+    pools.extend(numeric_boundary_pools(a.thorough()));
     for (subject, kind) in [("numcmp:decimal_strcmp", "decimal"), ("numcmp:realnum_strcmp", "real")] {
         if !a.wants(subject) {
             continue;
@@ -627,6 +628,13 @@ fn drive_numeric(t: &mut Tracer, a: &Args, st: &mut Stats, rng: &Rng) {
         for b in bodies {
             pool.push((b.to_string(), false));
             pool.push((b.to_string(), true));
+        }
+        // magnitudes around 2^63, 2^64, 10^19, 10^20 (the last values a machine word holds), also with leading zeros
+        for v in [pow2(63), pow2(64), pow10(19), pow10(20)] {
+            for x in around(&v) {
+                pool.push((x.clone(), false));
+                pool.push((if kind == "real" { format!("00{x}.50") } else { format!("00{x}") }, true));
+            }
         }
         let pj = Value::Array(pool.iter().map(|(b, neg)| json!({"b":bj(b.as_bytes()),"neg":neg})).collect());
         let n = pool.len();
